@@ -12,7 +12,9 @@ TRUSTED = [
     "coverage assumption (partial): the nesting exhibited by the catalogue of API operations (every unordered pair, DFS with preemption bound, plus random triples) is all the nesting the code has; blocking other than parking_lot locks (none in the sync API) and the async server paths are not covered",
 ]
 CATALOGUE = ["ins:1:5", "ins:3:6", "del:1", "del:2", "q:1", "q:2", "dm:1", "bq:1,2", "ea:2", "ex:1", "um:1:7", "knn:1",
-             "flush", "snap", "stats", "bd:1,2", "bdf:1", "bl:1:8", "kb:1"]
+             "flush", "snap", "stats", "bd:1,2", "bdf:1", "bl:1:8", "kb:1",
+             # a near-duplicate of a query cached just before: the semantic (similarity) hit path of the query cache
+             "kn:1;kn:2", "kn:3"]
 
 
 def programs(thorough, rng):
